@@ -5,11 +5,11 @@ use warp_core::materialization::ReduceOp;
 
 const L: usize = 3;
 
-fn payload() -> Vec<u8> {
+/// Payload of *concrete* length `n` (a loop variable after unwinding) with symbolic bytes:
+/// shape concrete, content symbolic (DESIGN R1).
+fn payload_n(n: usize) -> Vec<u8> {
     let buf: [u8; L] = kani::any();
-    let len: usize = kani::any();
-    kani::assume(len <= L);
-    buf[..len].to_vec()
+    buf[..n].to_vec()
 }
 
 fn same(a: &Vec<u8>, b: &Vec<u8>) -> bool {
@@ -22,39 +22,124 @@ fn same(a: &Vec<u8>, b: &Vec<u8>) -> bool {
     true
 }
 
+/// Two payloads of every length pair in 0..=3 x 0..=3, both orders.
 #[inline(always)]
-fn perm3_invariant(op: ReduceOp) {
-    let v = [payload(), payload(), payload()];
-    let p: u8 = kani::any();
-    kani::assume(p < 6);
-    let idx: [usize; 3] = match p { 0 => [0, 1, 2], 1 => [0, 2, 1], 2 => [1, 0, 2], 3 => [1, 2, 0], 4 => [2, 0, 1], _ => [2, 1, 0] };
-    let base = op.apply(vec![v[0].clone(), v[1].clone(), v[2].clone()]);
-    let perm = op.apply(vec![v[idx[0]].clone(), v[idx[1]].clone(), v[idx[2]].clone()]);
-    assert!(same(&base, &perm), "commutative reducer result depends on input order");
-    core::mem::forget((v, base, perm));
+fn swap_invariant(op: ReduceOp) {
+    let mut la = 0;
+    while la <= L {
+        let mut lb = 0;
+        while lb <= L {
+            let (a, b) = (payload_n(la), payload_n(lb));
+            let ab = op.apply(vec![a.clone(), b.clone()]);
+            let ba = op.apply(vec![b.clone(), a.clone()]);
+            assert!(same(&ab, &ba), "commutative reducer: apply([a,b]) != apply([b,a])");
+            core::mem::forget((a, b, ab, ba));
+            lb += 1;
+        }
+        la += 1;
+    }
 }
 
-//@ tier=quick timeout=900 bits=81 unwind=10 fns=warp_core::materialization::reduce_op::ReduceOp::apply,bitwise_and
-//@ bounds="3 payloads, each of symbolic length 0..3 with symbolic bytes; all 6 orders (symbolic permutation)"
-//@ desc="BitAnd: result bytes and length identical under every permutation, unequal lengths included"
-proof! { fn c18_reduce_bitand_perm() { perm3_invariant(ReduceOp::BitAnd); reach!(); } }
+const PERMS: [[usize; 3]; 5] = [[0, 2, 1], [1, 0, 2], [1, 2, 0], [2, 0, 1], [2, 1, 0]];
 
-//@ tier=quick timeout=900 bits=81 unwind=10 fns=warp_core::materialization::reduce_op::ReduceOp::apply,bitwise_or
-//@ bounds="3 payloads of symbolic length 0..3; all 6 orders"
-//@ desc="BitOr: permutation invariant, unequal lengths included"
-proof! { fn c18_reduce_bitor_perm() { perm3_invariant(ReduceOp::BitOr); reach!(); } }
+/// Three payloads with every length triple in 0..=max_len, all six orders (concrete loops).
+#[inline(always)]
+fn perm3_invariant(op: ReduceOp, max_len: usize) {
+    let mut la = 0;
+    while la <= max_len {
+        let mut lb = 0;
+        while lb <= max_len {
+            let mut lc = 0;
+            while lc <= max_len {
+                let v = [payload_n(la), payload_n(lb), payload_n(lc)];
+                let base = op.apply(vec![v[0].clone(), v[1].clone(), v[2].clone()]);
+                let mut k = 0;
+                while k < 5 {
+                    let perm = op.apply(vec![v[PERMS[k][0]].clone(), v[PERMS[k][1]].clone(), v[PERMS[k][2]].clone()]);
+                    assert!(same(&base, &perm), "commutative reducer result depends on the order of three inputs");
+                    core::mem::forget(perm);
+                    k += 1;
+                }
+                core::mem::forget((v, base));
+                lc += 1;
+            }
+            lb += 1;
+        }
+        la += 1;
+    }
+}
 
-//@ tier=quick timeout=900 bits=81 unwind=10 fns=warp_core::materialization::reduce_op::ReduceOp::apply
-//@ bounds="3 payloads of symbolic length 0..3; all 6 orders"
-//@ desc="Sum: permutation invariant (u64 LE wrapping add of zero-padded payloads)"
-proof! { fn c18_reduce_sum_perm() { perm3_invariant(ReduceOp::Sum); reach!(); } }
+//@ tier=quick timeout=900 mem=10 bits=384 unwind=10 unwindset="memcmp=5" fns=warp_core::materialization::reduce_op::ReduceOp::apply,bitwise_and
+//@ bounds="2 payloads, every length pair in 0..=3 x 0..=3 (concrete loop), symbolic bytes; both orders"
+//@ desc="BitAnd: apply([a,b]) == apply([b,a]) in bytes and length, unequal lengths included (min-length truncation)"
+proof! { fn c18_reduce_bitand_swap() { swap_invariant(ReduceOp::BitAnd); reach!(); } }
 
-//@ tier=quick timeout=900 bits=81 unwind=10 unwindset="memcmp=5" fns=warp_core::materialization::reduce_op::ReduceOp::apply
-//@ bounds="3 payloads of symbolic length 0..3; all 6 orders"
-//@ desc="Max: permutation invariant (lexicographic byte order, ties are equal values)"
-proof! { fn c18_reduce_max_perm() { perm3_invariant(ReduceOp::Max); reach!(); } }
+//@ tier=quick timeout=900 mem=10 bits=72 unwind=10 unwindset="memcmp=5" fns=warp_core::materialization::reduce_op::ReduceOp::apply,bitwise_and
+//@ bounds="3 payloads, every length triple in {0,1}^3, symbolic bytes; all 6 orders (concrete loops)"
+//@ desc="BitAnd: folding three inputs gives the same bytes in every order (associativity + commutativity, empty inputs included)"
+proof! { fn c18_reduce_bitand_perm3_short() { perm3_invariant(ReduceOp::BitAnd, 1); reach!(); } }
 
-//@ tier=quick timeout=900 bits=81 unwind=10 unwindset="memcmp=5" fns=warp_core::materialization::reduce_op::ReduceOp::apply
-//@ bounds="3 payloads of symbolic length 0..3; all 6 orders"
-//@ desc="Min: permutation invariant"
-proof! { fn c18_reduce_min_perm() { perm3_invariant(ReduceOp::Min); reach!(); } }
+//@ tier=thorough timeout=3600 mem=16 bits=648 unwind=10 unwindset="memcmp=5" fns=warp_core::materialization::reduce_op::ReduceOp::apply,bitwise_and
+//@ bounds="3 payloads, every length triple in {0,1,2}^3, symbolic bytes; all 6 orders (concrete loops)"
+//@ desc="BitAnd: result bytes and length identical under every permutation of three inputs of unequal length"
+proof! { fn c18_reduce_bitand_perm() { perm3_invariant(ReduceOp::BitAnd, 2); reach!(); } }
+
+//@ tier=quick timeout=900 mem=10 bits=384 unwind=10 unwindset="memcmp=5" fns=warp_core::materialization::reduce_op::ReduceOp::apply,bitwise_or
+//@ bounds="2 payloads, every length pair in 0..=3 x 0..=3 (concrete loop), symbolic bytes; both orders"
+//@ desc="BitOr: apply([a,b]) == apply([b,a]) in bytes and length, unequal lengths included (zero padding to the longer input)"
+proof! { fn c18_reduce_bitor_swap() { swap_invariant(ReduceOp::BitOr); reach!(); } }
+
+//@ tier=quick timeout=900 mem=10 bits=72 unwind=10 unwindset="memcmp=5" fns=warp_core::materialization::reduce_op::ReduceOp::apply,bitwise_or
+//@ bounds="3 payloads, every length triple in {0,1}^3, symbolic bytes; all 6 orders (concrete loops)"
+//@ desc="BitOr: folding three inputs gives the same bytes in every order (associativity + commutativity, empty inputs included)"
+proof! { fn c18_reduce_bitor_perm3_short() { perm3_invariant(ReduceOp::BitOr, 1); reach!(); } }
+
+//@ tier=thorough timeout=3600 mem=16 bits=648 unwind=10 unwindset="memcmp=5" fns=warp_core::materialization::reduce_op::ReduceOp::apply,bitwise_or
+//@ bounds="3 payloads, every length triple in {0,1,2}^3, symbolic bytes; all 6 orders (concrete loops)"
+//@ desc="BitOr: result bytes and length identical under every permutation of three inputs of unequal length"
+proof! { fn c18_reduce_bitor_perm() { perm3_invariant(ReduceOp::BitOr, 2); reach!(); } }
+
+//@ tier=quick timeout=900 mem=10 bits=384 unwind=10 unwindset="memcmp=5" fns=warp_core::materialization::reduce_op::ReduceOp::apply
+//@ bounds="2 payloads, every length pair in 0..=3 x 0..=3 (concrete loop), symbolic bytes; both orders"
+//@ desc="Sum: apply([a,b]) == apply([b,a]) in bytes and length, unequal lengths included (u64 LE wrapping add of zero-padded, 8-byte-truncated payloads)"
+proof! { fn c18_reduce_sum_swap() { swap_invariant(ReduceOp::Sum); reach!(); } }
+
+//@ tier=quick timeout=900 mem=10 bits=72 unwind=10 unwindset="memcmp=5" fns=warp_core::materialization::reduce_op::ReduceOp::apply
+//@ bounds="3 payloads, every length triple in {0,1}^3, symbolic bytes; all 6 orders (concrete loops)"
+//@ desc="Sum: folding three inputs gives the same bytes in every order (associativity + commutativity, empty inputs included)"
+proof! { fn c18_reduce_sum_perm3_short() { perm3_invariant(ReduceOp::Sum, 1); reach!(); } }
+
+//@ tier=thorough timeout=3600 mem=16 bits=648 unwind=10 unwindset="memcmp=5" fns=warp_core::materialization::reduce_op::ReduceOp::apply
+//@ bounds="3 payloads, every length triple in {0,1,2}^3, symbolic bytes; all 6 orders (concrete loops)"
+//@ desc="Sum: result bytes and length identical under every permutation of three inputs of unequal length"
+proof! { fn c18_reduce_sum_perm() { perm3_invariant(ReduceOp::Sum, 2); reach!(); } }
+
+//@ tier=quick timeout=900 mem=10 bits=384 unwind=10 unwindset="memcmp=5" fns=warp_core::materialization::reduce_op::ReduceOp::apply
+//@ bounds="2 payloads, every length pair in 0..=3 x 0..=3 (concrete loop), symbolic bytes; both orders"
+//@ desc="Max: apply([a,b]) == apply([b,a]) in bytes and length, unequal lengths included (lexicographic byte order)"
+proof! { fn c18_reduce_max_swap() { swap_invariant(ReduceOp::Max); reach!(); } }
+
+//@ tier=quick timeout=900 mem=10 bits=72 unwind=10 unwindset="memcmp=5" fns=warp_core::materialization::reduce_op::ReduceOp::apply
+//@ bounds="3 payloads, every length triple in {0,1}^3, symbolic bytes; all 6 orders (concrete loops)"
+//@ desc="Max: folding three inputs gives the same bytes in every order (associativity + commutativity, empty inputs included)"
+proof! { fn c18_reduce_max_perm3_short() { perm3_invariant(ReduceOp::Max, 1); reach!(); } }
+
+//@ tier=thorough timeout=3600 mem=16 bits=648 unwind=10 unwindset="memcmp=5" fns=warp_core::materialization::reduce_op::ReduceOp::apply
+//@ bounds="3 payloads, every length triple in {0,1,2}^3, symbolic bytes; all 6 orders (concrete loops)"
+//@ desc="Max: result bytes and length identical under every permutation of three inputs of unequal length"
+proof! { fn c18_reduce_max_perm() { perm3_invariant(ReduceOp::Max, 2); reach!(); } }
+
+//@ tier=quick timeout=900 mem=10 bits=384 unwind=10 unwindset="memcmp=5" fns=warp_core::materialization::reduce_op::ReduceOp::apply
+//@ bounds="2 payloads, every length pair in 0..=3 x 0..=3 (concrete loop), symbolic bytes; both orders"
+//@ desc="Min: apply([a,b]) == apply([b,a]) in bytes and length, unequal lengths included (lexicographic byte order)"
+proof! { fn c18_reduce_min_swap() { swap_invariant(ReduceOp::Min); reach!(); } }
+
+//@ tier=quick timeout=900 mem=10 bits=72 unwind=10 unwindset="memcmp=5" fns=warp_core::materialization::reduce_op::ReduceOp::apply
+//@ bounds="3 payloads, every length triple in {0,1}^3, symbolic bytes; all 6 orders (concrete loops)"
+//@ desc="Min: folding three inputs gives the same bytes in every order (associativity + commutativity, empty inputs included)"
+proof! { fn c18_reduce_min_perm3_short() { perm3_invariant(ReduceOp::Min, 1); reach!(); } }
+
+//@ tier=thorough timeout=3600 mem=16 bits=648 unwind=10 unwindset="memcmp=5" fns=warp_core::materialization::reduce_op::ReduceOp::apply
+//@ bounds="3 payloads, every length triple in {0,1,2}^3, symbolic bytes; all 6 orders (concrete loops)"
+//@ desc="Min: result bytes and length identical under every permutation of three inputs of unequal length"
+proof! { fn c18_reduce_min_perm() { perm3_invariant(ReduceOp::Min, 2); reach!(); } }
